@@ -22,6 +22,7 @@ type callRes struct {
 	done  bool
 	err   error
 	data  []byte
+	raw   []byte // the slice exactly as the client returned it (it may alias the receive buffer)
 	name  string
 	qids  []go9p.Qid
 	n     int
@@ -34,6 +35,7 @@ func doCall(c *go9p.Clnt, sp callSpec) *callRes {
 	switch sp.Kind {
 	case "read":
 		r.data, r.err = c.Read(f, uint64(sp.Fid%7), 16+sp.Fid%5)
+		r.raw = r.data
 		r.data = append([]byte{}, r.data...)
 	case "stat":
 		var d *go9p.Dir
